@@ -36,7 +36,7 @@ def clean():
 def main():
     args = [a for a in sys.argv[1:] if not a.startswith("--")]
     run_all = "--all" in sys.argv
-    ids = args or sorted(d for d in os.listdir(SEEDED) if os.path.isdir(os.path.join(SEEDED, d)))
+    ids = args or sorted(d for d in os.listdir(SEEDED) if os.path.isfile(os.path.join(SEEDED, d, "meta.json")))
     res_path = os.path.join(SEEDED, "RESULTS.json")
     results = json.load(open(res_path)) if os.path.exists(res_path) else {}
     props = ["C%02d" % i for i in range(1, 19)]
